@@ -207,6 +207,10 @@ def make_classes(sched, env):
             sched.gate(getattr(threading.current_thread(), "actor", "main"), "is_set")
             return self.flag
 
+        def clear(self):
+            # per-run reset at the top of a run: no other thread exists yet
+            self.flag = False
+
     class GTimer:
         def __init__(self, interval, fn):
             self.fn = fn
@@ -397,6 +401,8 @@ def run_schedule(schedule, out=(), err=(), in_script=None, in_tty=False, pty=Fal
                     obs["result"] = ("raise", type(e).__name__, res.stdout if res is not None else None,
                                      res.stderr if res is not None else None, res.exited if res is not None else None)
                 env.main_returned = True
+                # which I/O workers had not finished at the moment run()/join() returned or raised
+                obs["alive_at_return"] = sorted(a for a in ("out", "err", "stdin") if a in sched.threads and a not in sched.finished)
                 sched.trace.append(("main", "returned"))
                 sched.done("main")
 
